@@ -43,6 +43,8 @@ type c05Case struct {
 	DSN     string    `json:"dsn,omitempty"` // "" | default | hdrs | full | notify:<list>
 	Caps    []string  `json:"caps"`
 	Kind    string    `json:"kind"` // what this case is about
+	// ListSep: when set, To / Cc / Bcc are handed over as one string each, joined with it (ToFromString / CcFromString / BccFromString)
+	ListSep string `json:"list_sep,omitempty"`
 }
 
 var c05Locals = []string{
@@ -147,14 +149,35 @@ func runC05Case(r *ev.Run, c c05Case) {
 	if c.EnvFrom != nil {
 		set(m.EnvelopeFrom, m.EnvelopeFromFormat, *c.EnvFrom, "envfrom")
 	}
-	for _, a := range c.To {
-		set(m.AddTo, m.AddToFormat, a, "to")
+	setList := func(fn func(string) error, l []c05Addr, which string) {
+		if len(l) == 0 {
+			return
+		}
+		var ws []string
+		for _, a := range l {
+			ws = append(ws, a.Written)
+		}
+		r.Count("address_lists_set_from_one_string", 1)
+		if err := fn(strings.Join(ws, c.ListSep)); err != nil {
+			rejected = true
+			r.Count("addresses_rejected_by_setter", 1)
+			r.Seen("rejected", which+"-list:"+l[0].Local)
+		}
 	}
-	for _, a := range c.Cc {
-		set(m.AddCc, m.AddCcFormat, a, "cc")
-	}
-	for _, a := range c.Bcc {
-		set(m.AddBcc, m.AddBccFormat, a, "bcc")
+	if c.ListSep != "" {
+		setList(m.ToFromString, c.To, "to")
+		setList(m.CcFromString, c.Cc, "cc")
+		setList(m.BccFromString, c.Bcc, "bcc")
+	} else {
+		for _, a := range c.To {
+			set(m.AddTo, m.AddToFormat, a, "to")
+		}
+		for _, a := range c.Cc {
+			set(m.AddCc, m.AddCcFormat, a, "cc")
+		}
+		for _, a := range c.Bcc {
+			set(m.AddBcc, m.AddBccFormat, a, "bcc")
+		}
 	}
 	if rejected {
 		// the intended envelope is not what the message carries any more; only line well-formedness is judged
@@ -572,7 +595,7 @@ func sameSet(a, b string) bool {
 
 func runC05(r *ev.Run, rep *ev.ReplayDoc) ev.Summary {
 	sum := ev.Summary{
-		Rule: "addresses built from (local part, domain) pairs - dot-atoms and quoted-string local parts with blank, <, >, @, comma, ;, :, backslash, quote, UTF-8 and smuggling payloads such as 'a> NOTIFY=NEVER ORCPT=rfc822;x <b' - in four spellings and through the *Format setters, as From / EnvelopeFrom / To / Cc / Bcc (every local part in every role); HELO names with blanks, tabs, CR, LF, embedded commands, 600 characters (through WithHELO, and through smtp.Client.Hello with the caller carrying on after a refusal); credentials with CR/LF/blanks/controls for PLAIN, LOGIN, CRAM-MD5, XOAUTH2, SCRAM; every DSN option set the typed setters accept or must reject, several DSN options together in both orders; capability subsets. Every raw line received outside DATA is parsed with the strict RFC 5321 grammar. distinct by case",
+		Rule: "addresses built from (local part, domain) pairs - dot-atoms and quoted-string local parts with blank, <, >, @, comma, ;, :, backslash, quote, UTF-8 and smuggling payloads such as 'a> NOTIFY=NEVER ORCPT=rfc822;x <b' - in four spellings, through the *Format setters and as comma-separated lists through the *FromString setters, as From / EnvelopeFrom / To / Cc / Bcc (every local part in every role); HELO names with blanks, tabs, CR, LF, embedded commands, 600 characters (through WithHELO, and through smtp.Client.Hello with the caller carrying on after a refusal); credentials with CR/LF/blanks/controls for PLAIN, LOGIN, CRAM-MD5, XOAUTH2, SCRAM; every DSN option set the typed setters accept or must reject, several DSN options together in both orders; capability subsets. Every raw line received outside DATA is parsed with the strict RFC 5321 grammar. distinct by case",
 		Assumptions: []string{
 			"the intended mailbox is known by construction (local part + domain); a case whose address a setter rejected is only judged for line well-formedness",
 			"a stray '*' after a final AUTH reply is C04's known finding and not attributed to this property",
@@ -637,6 +660,14 @@ func runC05(r *ev.Run, rep *ev.ReplayDoc) ev.Summary {
 				c.DSN = "default"
 			}
 			cases = append(cases, c)
+			if role >= 2 {
+				// the same recipients handed over as one comma-separated string
+				for _, sep := range []string{",", ", ", " , "} {
+					lc := c
+					lc.ListSep, lc.Kind = sep, c.Kind+"-list"
+					cases = append(cases, lc)
+				}
+			}
 		}
 	}
 	for _, h := range c05HELOs {
@@ -695,6 +726,9 @@ func runC05(r *ev.Run, rep *ev.ReplayDoc) ev.Summary {
 		}
 		if rng.Intn(4) == 0 {
 			c.Caps = [][]string{allCaps, {"8BITMIME", "DSN"}, {"SMTPUTF8", "DSN"}}[rng.Intn(3)]
+		}
+		if rng.Intn(6) == 0 {
+			c.ListSep = gen.Pick(rng, []string{",", ", ", " ,", " , ", ",  "})
 		}
 		cases = append(cases, c)
 	}
